@@ -732,7 +732,8 @@ pub struct Outcome {
 }
 
 /// The whole check for one property made of one scenario: determinism self-check, batch, triage, evidence.
-pub fn check_scenarios(property: &str, cfg: &CheckCfg, parts: Vec<Box<dyn PartRunner>>, level_rule: &str, extra_assumptions: Vec<String>) -> Outcome {
+pub fn check_scenarios(property: &str, cfg: &CheckCfg, parts: Vec<Box<dyn PartRunner>>, level_rule: &str, extra_assumptions: Vec<String>, also_checked_build: bool) -> Outcome {
+    let is_child = std::env::var_os("VERIF_CHILD").is_some();
     let start = Instant::now();
     let known = load_known_findings();
     let root = verif_root();
@@ -760,6 +761,39 @@ pub fn check_scenarios(property: &str, cfg: &CheckCfg, parts: Vec<Box<dyn PartRu
         for a in r.assumptions {
             if !assumptions.contains(&a) {
                 assumptions.push(a);
+            }
+        }
+    }
+    // ---- the same check again in the build with arithmetic-overflow checks and debug assertions (a child process)
+    let mut child_report = Value::Null;
+    let mut child_exit = 0;
+    if also_checked_build && !is_child {
+        let child = root.join("sim/target/checked/sim");
+        if !child.exists() {
+            total.harness_errors.push(format!("the overflow-checked build {} is missing", child.display()));
+        } else {
+            let out = std::process::Command::new(&child)
+                .args(["check", property, cfg.tier.name()])
+                .env("VERIF_CHILD", "1")
+                .env("VERIF_SEED", cfg.verif_seed.to_string())
+                .env("VERIF_BUDGET_S", (cfg.budget.as_secs() / 2).max(5).to_string())
+                .output();
+            match out {
+                Ok(o) => {
+                    child_exit = o.status.code().unwrap_or(2);
+                    for line in String::from_utf8_lossy(&o.stdout).lines() {
+                        if line.starts_with("VIOLATION") || line.starts_with("KNOWN-FINDING") || line.starts_with("  oracle=") {
+                            println!("{}", line);
+                        }
+                    }
+                    for line in String::from_utf8_lossy(&o.stderr).lines() {
+                        if line.starts_with("HARNESS-ERROR") {
+                            eprintln!("{} (overflow-checked build)", line);
+                        }
+                    }
+                    child_report = std::fs::read_to_string(root.join("evidence").join(format!("{}.checked-build.json", property))).ok().and_then(|t| serde_json::from_str(&t).ok()).unwrap_or(Value::Null);
+                }
+                Err(e) => total.harness_errors.push(format!("cannot run the overflow-checked build: {}", e)),
             }
         }
     }
@@ -805,6 +839,7 @@ pub fn check_scenarios(property: &str, cfg: &CheckCfg, parts: Vec<Box<dyn PartRu
             "incidental_hits_of_other_properties_oracles": total.incidental,
             "known_findings_hit": known_hit.iter().map(|(k, (_, n))| (k.clone(), *n)).collect::<BTreeMap<_, _>>(),
             "components": components,
+            "overflow_checked_build_run": child_report.get("coverage").cloned().unwrap_or(Value::Null),
             "exhaustive": false,
         },
         "assumptions": assumptions,
@@ -813,7 +848,7 @@ pub fn check_scenarios(property: &str, cfg: &CheckCfg, parts: Vec<Box<dyn PartRu
     });
     let ev_dir = root.join("evidence");
     std::fs::create_dir_all(&ev_dir).ok();
-    std::fs::write(ev_dir.join(format!("{}.json", property)), serde_json::to_string_pretty(&evidence).unwrap()).expect("cannot write evidence");
+    std::fs::write(ev_dir.join(if is_child { format!("{}.checked-build.json", property) } else { format!("{}.json", property) }), serde_json::to_string_pretty(&evidence).unwrap()).expect("cannot write evidence");
     println!(
         "{} {}: {} runs, {} distinct non-trivial, {} sched points, {} known-finding keys, {} new violations, {:.1}s",
         property,
@@ -825,8 +860,10 @@ pub fn check_scenarios(property: &str, cfg: &CheckCfg, parts: Vec<Box<dyn PartRu
         violations_new.len(),
         wall
     );
-    let exit_code = if !violations_new.is_empty() {
+    let exit_code = if !violations_new.is_empty() || child_exit == 1 {
         1
+    } else if child_exit == 2 {
+        2
     } else if harness_failed {
         2
     } else {
